@@ -14,28 +14,48 @@ pub fn use_def(
 
     for location in rd.keys() {
         let defs = match location.function_location().apply(function).unwrap() {
-            il::RefFunctionLocation::Instruction(_, instruction) => instruction
-                .operation()
-                .scalars_read()
-                .into_iter()
-                .fold(LocationSet::new(), |mut defs, scalar_read| {
-                    rd[location].locations().iter().for_each(|rd| {
-                        rd.function_location()
-                            .apply(function)
-                            .unwrap()
-                            .instruction()
-                            .unwrap()
-                            .operation()
-                            .scalars_written()
-                            .into_iter()
-                            .for_each(|scalar_written| {
-                                if scalar_written == scalar_read {
-                                    defs.insert(rd.clone());
-                                }
-                            })
-                    });
-                    defs
-                }),
+            il::RefFunctionLocation::Instruction(block, instruction) => {
+                // The definitions an instruction can use are those reaching it
+                // before it executes: what reaches the end of its predecessors.
+                // rd[location] already has this instruction's own writes applied.
+                let rpl = il::RefProgramLocation::new(
+                    function,
+                    il::RefFunctionLocation::Instruction(block, instruction),
+                );
+                let mut reaching = LocationSet::new();
+                for predecessor in rpl.backward()? {
+                    if let Some(predecessor_rd) = rd.get(&predecessor.into()) {
+                        predecessor_rd
+                            .locations()
+                            .iter()
+                            .for_each(|rd| reaching.insert(rd.clone()));
+                    }
+                }
+                instruction
+                    .operation()
+                    .scalars_read()
+                    .unwrap_or_default()
+                    .into_iter()
+                    .fold(LocationSet::new(), |mut defs, scalar_read| {
+                        reaching.locations().iter().for_each(|rd| {
+                            rd.function_location()
+                                .apply(function)
+                                .unwrap()
+                                .instruction()
+                                .unwrap()
+                                .operation()
+                                .scalars_written()
+                                .unwrap_or_default()
+                                .into_iter()
+                                .for_each(|scalar_written| {
+                                    if scalar_written == scalar_read {
+                                        defs.insert(rd.clone());
+                                    }
+                                })
+                        });
+                        defs
+                    })
+            }
             il::RefFunctionLocation::Edge(edge) => edge
                 .condition()
                 .map(|condition| {
